@@ -31,6 +31,7 @@ type Engine struct {
 	inlineDeps map[string]bool // dependency packages whose small functions are followed (built on demand)
 	built      map[*ssa.Package]bool
 	nonNilGlobals map[*ssa.Global]bool
+	applyModel    int // 0 unknown, 1 messages applied only when accepted, 2 applied in every state
 }
 
 // ensureBuilt builds the SSA of allow-listed dependency packages on demand so
